@@ -6,16 +6,21 @@ Lanes (clang ASan+UBSan build, every execution under a wall-clock limit):
   config    robsd-config -m <mode> -C <mutated config> -   and   robsd-step -L -m <mode> -C <mutated config>
   report    robsd-report on build directories with mutated step.csv / logs / comment / tags
   ls/hook   robsd-ls, robsd-hook with mutated configs
+  reentry   the witnesses of C12_config_no_abort_refuted and generated configurations whose root directory depends on
+            ${builddir} (finding D18), robsd-config and robsd-step -L (+ model: the trap flag of Conf/ConfDefs.v decides
+            whether the implementation must die or must exit 0/1)
 Oracle on every execution: no sanitizer report, no signal, no timeout, exit status in the documented set,
 a rejection prints a diagnostic and nothing on standard output."""
 import hashlib, json, glob, os, re, subprocess, random
 from concurrent.futures import ThreadPoolExecutor
 import common, c01, c09, c13
 
-TRANSLATORS = ['t_lexer', 't_step', 't_interp']
+TRANSLATORS = ['t_lexer', 't_step', 't_interp', 't_conf']
 TRUSTED = ['memory safety / undefined behaviour of the C code is OBSERVED with clang ASan+UBSan (-fno-sanitize-recover), not proved; bounded by the generated inputs',
            'time limit 5 s per execution stands for "terminates promptly"',
-           'models used for comparison: C01 (step file), C13 (regress log), C09 (interpolation); the configuration parser is compared only against the exit-status/diagnostic oracle here (C08 compares it with its model)']
+           'models used for comparison: C01 (step file), C13 (regress log), C09 (interpolation); the configuration parser is compared with its model (Conf/ConfDefs.v: exit, '
+           'stdout, trap flag) in the reentry lane only, elsewhere against the exit-status/diagnostic oracle (C08 compares it with its model on grammar-derived inputs)',
+           'translator t_conf.py: which body config_default_build_dir has (re-entry guard) decides whether C12_config_no_abort_holds_now checks']
 
 MODEL_MAX = 3000
 MODES = ['robsd', 'robsd-cross', 'robsd-ports', 'robsd-regress', 'canvas']
@@ -162,8 +167,22 @@ def lane_config(ctx, impl, work, res, rng, n):
         seed = seeds_config(root, mode)
         data = mutate(rng, seed) if rng.random() < 0.85 else bytes(rng.randrange(256) for _ in range(rng.choice([0, 3, 50, 4000])))
         tmpl = rng.choice([b'${robsddir} ${keep} ${hook} ${skip}\n', b'${builddir} ${ncpu} ${arch} ${trace}\n', b'${regress} ${regress-env} ${rdomain} ${rdomain}\n',
-                           mutate(rng, b'${tmp-dir}/${exec-dir}\n', 2)])
+                           mutate(rng, b'${tmp-dir}/${exec-dir}\n', 2),
+                           # every kind of row once: the static defaults and computed defaults config_find can be asked for (Conf/ConfAbort.v trap_free)
+                           {'canvas': b'${step} ${canvas-name} ${canvas-dir} ${keep-dir}\n', 'robsd-regress': b'${regress-obj} ${regress-packages} ${parallel} ${regress-x-parallel} ${regress-x-targets} ${regress-x-env} ${regress-timeout}\n',
+                            'robsd': b'${destdir} ${kernel} ${reboot} ${bsd-diff} ${bsd-reldir} ${x11-reldir} ${cvs-user}\n',
+                            'robsd-cross': b'${crossdir} ${bsd-srcdir} ${inet} ${inet6} ${machine}\n',
+                            'robsd-ports': b'${chroot} ${ports} ${ports-dir} ${ports-user} ${ports-diff} ${distrib-host}\n'}[mode]])
         which = rng.choice(['config', 'config', 'list', 'ls', 'hook'])
+        if rng.random() < 0.2:
+            # every line of one keyword dropped (a required variable missing, a list variable never created), then every kind of
+            # row asked for: the static-default and computed-default branches of config_find (Conf/ConfAbort.v sites 1-3, 6)
+            kws = sorted({l.split()[0] for l in seed.split(b'\n') if l.split()})
+            kw = rng.choice(kws)
+            data = b'\n'.join(l for l in seed.split(b'\n') if not l.startswith(kw + b' ')) + b'\n'
+            tmpl = {'canvas': b'${step} ${canvas-name} ${canvas-dir} ${keep-dir}\n', 'robsd-regress': b'${regress} ${regress-obj} ${regress-packages} ${parallel} ${regress-x-parallel}\n',
+                    'robsd': b'${destdir} ${kernel} ${bsd-reldir}\n', 'robsd-cross': b'${crossdir} ${bsd-srcdir}\n', 'robsd-ports': b'${chroot} ${ports} ${ports-user}\n'}[mode]
+            which = rng.choice(['config', 'config', 'config', 'list'])
         cases.append((mode, data, tmpl, which))
 
     def one(ic):
@@ -250,7 +269,80 @@ def lane_report(ctx, impl, work, res, rng, n):
             res.nontrivial.add(hashlib.sha1(steps + log).hexdigest())
 
 
-LANES = [lane_step, lane_regress, lane_config, lane_interp, lane_report]
+D18_SIG = 'config-builddir-reentry'
+STACK = re.compile(rb'AddressSanitizer: stack-overflow')
+
+
+def lane_reentry(ctx, impl, work, res, rng, n):
+    """abnormal termination of the configuration reader: the model's trap flag (proved in Conf/ConfAbort.v to be set only
+    when ${builddir} is needed while it is being computed) against what the sanitizer build does"""
+    import conf_common as cc, conf_gen
+    world = cc.World(ctx, impl)
+    drv = ctx.build_driver('cf', withz=True)
+    g = conf_gen.Gen(rng)
+    W = [('robsd', b'robsddir "@R@/root/${cvs-root}"\ndestdir "@R@/root"\ncvs-root "${builddir}"\n', b'${builddir}\n', 'config'),
+         ('robsd', b'robsddir "@R@/root/${cvs-root}"\ndestdir "@R@/root"\ncvs-root "${builddir}"\n', b'x\n', 'config'),
+         ('robsd', b'robsddir "@R@/root/${cvs-root}"\ncvs-root "${builddir}"\ndestdir "${builddir}"\n', b'x\n', 'config'),
+         ('robsd', b'robsddir "@R@/root/${cvs-root}"\ncvs-root "${builddir}"\ndestdir "${builddir}"\n', b'', 'list'),
+         ('canvas', b'canvas-name "x"\ncanvas-dir "@R@/root/${hook}"\nhook { "${builddir}" }\nstep "a" command { "true" }\n', b'${tmp-dir}\n', 'config'),
+         ('robsd', b'robsddir "@R@/rroot"\ndestdir "@R@/root"\ncvs-root "${builddir}"\n', b'${builddir} ${cvs-root} ${tmp-dir}\n', 'config')]
+    cases = [{'mode': m, 'kind': 'witness', 'text': t.hex(), 'vars': [], 'execdir': None, 'stdin': s.hex(), 'which': w, 'lane': 'reentry'} for m, t, s, w in W]
+    for _ in range(max(24, n // 8)):
+        mode = rng.choice(cc.MODES)
+        ents, st = g.entries(mode, popt=rng.choice([0.1, 0.35]))
+        label, text = g.reentry(mode, ents, st)
+        stdin = rng.choice([b'${builddir}\n', b'${tmp-dir}\n', b'x\n', b'${robsddir}\n', b'${keep} ${ncpu}\n${comment-path}\n', g.template(mode, st)])
+        cases.append({'mode': mode, 'kind': label, 'text': text.hex(), 'vars': [], 'execdir': None, 'stdin': stdin.hex(),
+                      'which': rng.choice(['config', 'config', 'config', 'list']), 'lane': 'reentry'})
+    env = dict(os.environ, LC_ALL='C')
+    env.pop('EXECDIR', None)
+
+    def one(c):
+        conf = cc.write_case_files(world, c)
+        if c['which'] == 'config':
+            return execp([os.path.join(impl, 'robsd-config'), '-m', c['mode'], '-C', conf, '-'], stdin=world.sub(bytes.fromhex(c['stdin'])), env=env)
+        return execp([os.path.join(impl, 'robsd-step'), '-L', '-m', c['mode'], '-C', conf], env=env)
+    with ThreadPoolExecutor(16) as ex:
+        obs = list(ex.map(one, cases))
+    # the model: robsd-config on the same text; for robsd-step -L only the parse (empty template) matters
+    qs = [(i, ['cfg', c['mode'], common.hexs(world.sub(bytes.fromhex(c['text']))), '0',
+               common.hexs(world.sub(bytes.fromhex(c['stdin'])) if c['which'] == 'config' else b'')]) for i, c in enumerate(cases)]
+    answers, _ = cc.driver_rounds(world, drv, qs, cases, lambda pre, envt: ' '.join(pre + envt))
+    for c, (rc, out, err), a in zip(cases, obs, answers):
+        mf = a.split()
+        trap = len(mf) > 2 and mf[2] == '1'
+        died = bool(STACK.search(err)) or rc < 0 or rc > 128
+        if died and not trap and (STACK.search(err) or rc in (-11, 139)):
+            # the model (with the body the translator found in the source) does not flag the trap but the implementation recurses
+            res.oracle_failures.append({'case': c, 'signature': D18_SIG, 'lane': 'reentry',
+                                        'what': 'robsd-%s dies of stack exhaustion where the model exits %s' % (c['which'], mf[0])})
+            res.evaluations += 1
+            res.count('reentry %s %s: model exit %s, impl dies' % (c['which'], c['kind'], mf[0]))
+            continue
+        res.evaluations += 1
+        res.count('reentry %s %s: model %s, impl %s' % (c['which'], c['kind'], 'trap' if trap else 'exit ' + mf[0], 'dies' if died else 'exit %s' % rc))
+        if trap and died and not (STACK.search(err) or rc in (-11, 139)):
+            # another trap site than the unbounded recursion (SIGILL of __builtin_trap, SIGABRT of an assert)
+            judge(res, 'robsd-%s reentry' % c['which'], c, rc, out, err)
+            res.evaluations -= 1
+        elif trap and died:
+            res.oracle_failures.append({'case': c, 'signature': D18_SIG, 'lane': 'reentry',
+                                        'what': 'robsd-%s dies of stack exhaustion: ${builddir} needed while ${builddir} is being computed' % c['which']})
+        elif trap and not died:
+            res.tie_errors.append('the model flags a trap (config_default_build_dir re-entered) where robsd-%s exits %s: %r'
+                                  % (c['which'], rc, bytes.fromhex(c['text'])[:120]))
+        else:
+            ok = judge(res, 'robsd-%s reentry' % c['which'], c, rc, out, err, stdout_on_reject_ok=(c['which'] == 'list'))
+            res.evaluations -= 1
+            if ok and c['which'] == 'config' and (mf[0] != str(rc) or mf[1] != common.hexs(out)):
+                res.disagreements.append({'case': c, 'model': a[:200], 'impl': ('%d %s' % (rc, common.hexs(out)))[:200]})
+            if ok and c['which'] == 'list' and (mf[0] == '1') != (rc == 1) and mf[0] == '1':
+                res.disagreements.append({'case': c, 'model': 'configuration rejected', 'impl': 'robsd-step -L exit %s' % rc})
+        if rc == 0:
+            res.nontrivial.add(hashlib.sha1(bytes.fromhex(c['text']) + bytes.fromhex(c['stdin'])).hexdigest())
+
+
+LANES = [lane_step, lane_regress, lane_config, lane_interp, lane_report, lane_reentry]
 
 
 def run_all(ctx, res, n):
@@ -280,5 +372,25 @@ def extended_search(ctx, res, proof):
 
 
 def replay(ctx, rep):
-    print(json.dumps(rep, indent=1)[:3000])
-    return 1
+    case = rep.get('case') or {}
+    if case.get('lane') != 'reentry':
+        print(json.dumps(rep, indent=1)[:3000])
+        return 1
+    # the reentry lane replays: same configuration, same template, sanitizer build of the tree as it is now
+    ctx.regen(TRANSLATORS)
+    impl = ctx.build_impl('-fsanitize=address,undefined -fno-sanitize-recover=all -g -O1', cc='clang', ldflags='-fsanitize=address,undefined')
+    os.environ.setdefault('ASAN_OPTIONS', 'detect_leaks=0:abort_on_error=0')
+    import conf_common as cc
+    world = cc.World(ctx, impl)
+    conf = cc.write_case_files(world, case)
+    env = dict(os.environ, LC_ALL='C')
+    if case['which'] == 'config':
+        rc, out, err = execp([os.path.join(impl, 'robsd-config'), '-m', case['mode'], '-C', conf, '-'], stdin=world.sub(bytes.fromhex(case['stdin'])), env=env)
+    else:
+        rc, out, err = execp([os.path.join(impl, 'robsd-step'), '-L', '-m', case['mode'], '-C', conf], env=env)
+    print('configuration:\n' + world.sub(bytes.fromhex(case['text'])).decode('latin1'))
+    print('template: %r' % bytes.fromhex(case['stdin']))
+    print('exit %s\nstdout %r\nstderr %s' % (rc, out[:200], err[-600:].decode('latin1')))
+    bad = bool(SAN.search(err)) or rc not in (0, 1)
+    print('VIOLATION reproduced' if bad else 'no violation')
+    return 1 if bad else 0
